@@ -58,6 +58,8 @@ def plan(tier, seed):
             for g in ((8, 32) if tier == "quick" else (8, 32, 64, 128)):
                 tasks.append({"kind": "long", "bits": bits, "dt": dt, "g": g})
             tasks.append({"kind": "reuse", "bits": bits, "dt": dt})
+            if dt != "bfloat16":
+                tasks.append({"kind": "large", "bits": bits, "dt": dt, "tier": tier})
     return tasks
 
 
@@ -203,9 +205,51 @@ def _reuse_task(task, out):
             out["nontrivial"] += 1
 
 
+def _large_task(task, out):
+    """Size ladder far beyond the exhaustive bound: weights of 2^18 .. 2^22 elements with non power-of-two dimensions and group
+    counts; several tensors are quantized and dequantized first and only then judged (results must not share buffers)."""
+    bits, dtname = task["bits"], task["dt"]
+    dt = num.DTYPES[dtname]
+    cfgs = [((4101, 1024), 0, None), ((1000, 2048), 0, 128), ((2048, 1024), 0, 128), ((1030, 260), -1, None)]
+    if task["tier"] == "thorough":
+        cfgs += [((11008, 512), 0, 128), ((4099, 1056), 0, 96), ((520, 4100), -1, 130), ((3001, 2048), 0, 64)]
+    only = task.get("only")
+    base = torch.stack([wq.gen_class(c, 16, dtname, k) for k, c in enumerate(wq.CLASSES)])  # (14, 16)
+    for ci, (shape, axis, gs) in enumerate(cfgs):
+        if only and only != [ci]:
+            continue
+        gid, pos, ng, gsz = wq.group_ids(shape, axis, gs)
+        held = []
+        for rep in range(2):
+            # group k holds class (k + rep) % 14, repeated along the group (period 16)
+            x = base[(gid + rep) % len(wq.CLASSES), pos % 16].to(dt)
+            try:
+                q = _quant(x, bits, axis, gs)
+                held.append((x, q, q.dequantize()))
+            except Exception as e:  # noqa
+                out["violations"].append(violation(PID, dict(task, only=[ci]), {"kind": "large", "bits": bits, "dtype": dtname, "sub": "raised"}, f"raised: large quantize_weight {shape} axis {axis} group {gs}: {type(e).__name__}: {e}"))
+                held = []
+                break
+        for rep, (x, q, dq_first) in enumerate(held):
+            fields = {"kind": "large", "bits": bits, "dtype": dtname, "axis": axis, "grouped": gs is not None}
+            case = dict(task, only=[ci])
+            out["evals"] += 1
+            out["calls"] += 1
+            out["points"] += 1
+            out["nontrivial"] += 1
+            # the result obtained before the other tensor was dequantized is judged as it is now (shared work buffers)
+            for sub, n, msg, extra in wq.affine_judge(x, q, bits, axis, gs, dtname, idempotence=False, dq=dq_first):
+                out["violations"].append(violation(PID, case, dict(fields, sub="held_" + sub, **extra), f"held_{sub}: the dequantized tensor #{rep} obtained before another large dequantization: {shape} axis {axis} group {gs}: {msg}", {"count": n}))
+            for sub, n, msg, extra in wq.affine_judge(x, q, bits, axis, gs, dtname, idempotence=(rep == 0)):
+                out["violations"].append(violation(PID, case, dict(fields, sub=sub, **extra), f"{sub}: large {shape} axis {axis} group {gs}: {msg}", {"count": n}))
+
+
 def run_task(task):
     out = {"evals": 0, "nontrivial": 0, "points": 0, "calls": 0, "violations": [], "samples": [], "counters": {}}
-    if task["kind"] == "reuse":
+    if task["kind"] == "large":
+        _large_task(task, out)
+        out["samples"].append({"kind": "large", "shape": [4101, 1024], "axis": 0, "group_size": None, "note": "two tensors quantized+dequantized, then both judged"})
+    elif task["kind"] == "reuse":
         _reuse_task(task, out)
         out["samples"].append({"kind": "reuse", "shape": [4, 8], "axis": 0, "group_size": 4, "history": ["quantize", "x.mul_(0.25)", "quantize", "x.add_(3)", "quantize"]})
     elif task["kind"] == "v9":
@@ -227,7 +271,9 @@ def run_task(task):
 
 def replay_task(case):
     out = {"evals": 0, "nontrivial": 0, "points": 0, "calls": 0, "violations": [], "samples": [], "counters": {}}
-    if case["kind"] == "reuse":
+    if case["kind"] == "large":
+        _large_task(case, out)
+    elif case["kind"] == "reuse":
         _reuse_task(case, out)
     elif case["kind"] == "v9":
         _v9_task(case, out)
